@@ -10,6 +10,7 @@ inductive Ev
   | callMatch | callLookup | callExtend | callDetectReader
   | readChildren
   | writeField (recv field : String)
+  | readField (recv field : String)
   | appendToField (field : String)
   deriving Repr, DecidableEq
 
